@@ -257,6 +257,7 @@ class Engine:
             for v, d in vs.items():
                 self.variant_of[en + "::" + v] = d
         self.const_cache = {}
+        self.fn_ids = {}    # function name -> small integer standing for its address
         self.stubs = {}  # last path segment of a callee -> generator(engine, args, pcs)
         self.solver = z3.Solver()
         self.query_timeout_ms = 600000
@@ -394,7 +395,7 @@ class Engine:
                 j = match_close(inner, 0)
                 prefix, rest = inner[:j + 1], inner[j + 1:]
             else:
-                m = re.match(r"^(_\d+)(.*)$", inner)
+                m = re.match(r"^(_\d+(?:\[[^\]]*\])*)(.*)$", inner)
                 if not m:
                     raise Unsupported("place " + s)
                 prefix, rest = m.group(1), m.group(2)
@@ -488,6 +489,12 @@ class Engine:
             if not isinstance(v, Enum):
                 raise Unsupported("discriminant of non-enum")
             return v.d
+        m = re.match(r"^([\w:<>]+) as fn\(.*\(PointerCoercion\(ReifyFnPointer", s)
+        if m:
+            name = m.group(1)
+            if name not in self.fn_ids:
+                self.fn_ids[name] = 1000 + len(self.fn_ids)
+            return z3.IntVal(self.fn_ids[name])
         m = re.match(r"^(.*) as ([\w:]+) \((\w+)(?:\(.*\))?\)$", s)
         if m and (s.startswith("copy ") or s.startswith("move ") or s.startswith("const ")):
             v = self.operand(env, m.group(1))
@@ -732,6 +739,25 @@ class Engine:
 
     def call(self, callee, args, argtxt, env, fn, pcs, depth, dest_ty):
         c = callee
+        if re.match(r"^(move|copy) ", c):
+            # call through a function pointer: one path per function whose address it can hold
+            v = self.operand(env, c)
+            any_target = False
+            for name, fid in list(self.fn_ids.items()):
+                cond = simp(v == fid)
+                if z3.is_false(cond):
+                    continue
+                npc = pcs if z3.is_true(cond) else pcs + [cond]
+                if not (z3.is_true(cond) or self.feasible(npc)):
+                    continue
+                if name not in self.fns:
+                    raise Unsupported("indirect call target %s not in the dump" % name)
+                any_target = True
+                for r in self.run(self.fns[name][-1], args, npc, depth + 1):
+                    yield r
+            if not any_target:
+                raise Unsupported("indirect call with no feasible target")
+            return
         if re.search(r"panicking::|panic_fmt|begin_panic|::panic\b|unreachable_display|panic_const", c):
             if self.feasible(pcs):
                 yield pcs, ("panic", "call to %s in %s" % (c, fn.name))
@@ -804,6 +830,13 @@ class Engine:
             if "Ok" in v.p:
                 pay["Ok"] = v.p["Ok"]
             yield pcs, ("ret", Enum(v.d, pay, "Result")); return
+        if re.search(r"(as (std|core)::cmp::Ord>::cmp|impl (std::cmp::)?Ord for \w+>::cmp)$", c) and z3.is_expr(args[0]) and args[0].sort() == z3.IntSort():
+            a, b = args[0], args[1]
+            yield pcs, ("ret", Enum(z3.If(a < b, z3.IntVal(-1), z3.If(a == b, z3.IntVal(0), z3.IntVal(1))), {}, "Ordering")); return
+        if re.search(r"(as (std|core)::cmp::PartialOrd>::partial_cmp|impl (std::cmp::)?PartialOrd for \w+>::partial_cmp)$", c) and z3.is_expr(args[0]) and args[0].sort() == z3.IntSort():
+            a, b = args[0], args[1]
+            o = Enum(z3.If(a < b, z3.IntVal(-1), z3.If(a == b, z3.IntVal(0), z3.IntVal(1))), {}, "Ordering")
+            yield pcs, ("ret", Enum(1, {"Some": [o]}, "Option")); return
         if re.search(r"as (std|core)::clone::Clone>::clone$", c):
             yield pcs, ("ret", args[0]); return
         # crate function: resolve by last segment + argument types
